@@ -18,6 +18,18 @@ CLAIMED = {
    technique="Lean 4 proof: refinement of the pointer model to a position + held-set spec for all histories, integer lemmas for the drag path + differential correspondence and a direct property oracle on a Deferred chain with a virtual clock",
    text="Lean theorems: for every history of move/down/up/click/drag the model sends exactly the events of the abstract position + held-button-set semantics (C05_invariant, by induction over the history through C05_step); a click is one press and one release (C05_click); a drag ends exactly on the target with the mask unchanged (C05_drag_last, C05_drag_mask), its points are floors of the exact segment points, inside the bounding box, monotone, in range (C05_drag_on_segment, C05_drag_in_box, C05_drag_monotone, C05_in_range), zero-length drags send one event (C05_drag_zero); the 6-byte PointerEvent parses back (C05_wire). Correspondence: histories executed through a real Deferred chain with task.Clock are compared byte for byte with the model, and checked directly against the property (incl. 0.2 s spacing and that no later operation starts before a drag has finished).",
    note="Trusted: Lean kernel + standard axioms; Python int bit operations and floor division as modelled; Twisted Deferred/inlineCallbacks/callLater exercised under task.Clock, not proved. Hypotheses: positions 0..65535, buttons 1..8, step >= 1."),
+ "C19": dict(engine="Client", design_ref="DESIGN.md section 8 C19",
+   technique="Lean 4 proof: every history of writing operations serialises to a stream that the RFC 6143 client-message parser parses back to exactly the operations' messages (induction over histories) + byte-exact differential correspondence",
+   text="Lean theorems: C19_stream - for every history of library operations with in-range arguments (keys, pointer incl. drag, paste, refresh/capture requests, explicit update requests, setPixelFormat, setEncodings, raw key/pointer events) the concatenated writes parse, with the independent RFC 6143 7.5 parser of VncSpec/C2S.lean, to exactly the messages the operations stand for (no framing loss anywhere in the stream); C19_parse_stream/C19_parse_encode (RFC round trip), C19_paste (Latin-1 bytes behind the exact length), C19_setencodings_split, C19_sizes, C19_pf_roundtrip. Correspondence: random histories on the real client, every transport.write compared with the model; the stream is also parsed by a Python transcription of the RFC parser and compared with the operations' arguments.",
+   note="Trusted: Lean kernel + standard axioms; struct.pack / str.encode semantics as modelled (VncModel/Wire.lean); hypotheses: in-range arguments (setEncodings with an encoding outside s32 is not atomic - outside the property)."),
+ "C01": dict(engine="Rfb", design_ref="DESIGN.md section 8 C01",
+   technique="Lean 4 proof: generic segmentation theorem for the buffering machine (feedAll_flatten) instantiated with the model of every RFBClient state (rfb_progress) + differential correspondence over chunkings, exhaustive chunking enumeration in the thorough tier",
+   text="Lean theorems: feedAll_flatten (for EVERY buffering machine that makes progress, any chunking of a stream yields the same final state, residual buffer and outputs as the unsplit stream - all 2^(n-1) chunkings at once, by induction), rfb_progress (the model of RFBClient with all its _handle* states is such a machine), hence C01_seg_indep / C01_chunkings / C01_observable for every configuration, every inflate behaviour and every byte stream, valid or not; VMware variant: C01_vmware_no_match, C01_vmware_match, C01_vmware_pattern state the documented workaround exactly. The model is tied to rfb.py/client.py by a differential run (sessions x chunking families x 4 client classes, callbacks with arguments, writes, close, exceptions) and the implementation is checked directly: trace and screen of every chunking equal those of the unsplit run.",
+   note="Trusted: Lean kernel + standard axioms; zlib as a parameter (inflate outputs replayed); Twisted transport rule (nothing delivered after loseConnection / an escaping exception); Pillow. The correspondence sees what its generators produce (distribution in the evidence)."),
+ "C15": dict(engine="Rfb", design_ref="DESIGN.md section 8 C15",
+   technique="Lean 4 proof: Progress of the RFBClient model => the dispatch loop terminates with at most 2*bytes+1 handler calls for every byte string and chunking; total Lean functions for handler-internal loops + budgeted differential correspondence on hostile streams",
+   text="Lean theorems: rfb_progress (every zero-length expectation - empty reason, empty name, empty clipboard text, zero colours, zero-area rectangles, zero sub-rectangles, empty compressed block, zero-size cursor - is followed by a halt or a state that needs at least one byte), C15_no_spin / C15_no_spin_all (no fuel exhaustion for any state, chunk, chunk list), C15_steps_linear (<= 2*bytes+1 handler invocations per dataReceived), C15_dead_stays (nothing is parsed after a close) and the named zero-length corollaries; handler-internal loops are total structural recursions in the model. Correspondence: grammar-derived streams with length/count fields set to 0/1/max, truncations, mutations, random tails and hostile ZRLE blocks run on the real clients under a call-count budget (sys.setprofile) and a wall-clock alarm; a spin or super-linear call count is a violation with the stream as replay.",
+   note="Trusted: Lean kernel + standard axioms; zlib expansion and Pillow canvas allocation are outside the property (MemoryError cases are counted and skipped)."),
 }
 
 def main():
@@ -52,7 +64,8 @@ def main():
         "engines": [
             {"name": "Expect", "path": "lean/VncModel/Expect.lean", "serves_properties": ["C01", "C15", "C16", "C17"], "kind_free_text": "generic buffering machine + segmentation theorems (Lean)"},
             {"name": "Script", "path": "lean/VncModel/Address.lean", "serves_properties": ["C20"], "kind_free_text": "pure functions of command.py (Lean model + theorems)"},
-            {"name": "Client", "path": "lean/VncModel/Keys.lean", "serves_properties": ["C04", "C05"], "kind_free_text": "VNCDoToolClient key / pointer operations and serialisers (Lean model + theorems)"},
+            {"name": "Rfb", "path": "lean/VncModel/Rfb.lean", "serves_properties": ["C01", "C15"], "kind_free_text": "RFBClient receive path: every _handle* state as an instance of the buffering machine (Lean model + theorems)"},
+            {"name": "Client", "path": "lean/VncModel/Keys.lean", "serves_properties": ["C04", "C05", "C19"], "kind_free_text": "VNCDoToolClient key / pointer operations and serialisers (Lean model + theorems)"},
             {"name": "harness", "path": "harness/", "serves_properties": sorted(CLAIMED), "kind_free_text": "Python: implementation drivers, generators, correspondence with the Lean driver (lean/Driver/Main.lean), spec oracles"},
         ],
         "checks": checks,
